@@ -254,6 +254,10 @@ fn after_redirect_cell(idx: u64, rec: &mut Rec) {
     let framing = take(3); // 0 content-length on the original, 1 default chunked, 2 content-length: 0
     let policy = [RedirectAuthHeaders::Never, RedirectAuthHeaders::SameHost][take(2)];
     let hops = 1 + take(2);
+    // what the caller adds to the request the last redirect created: nothing, or a framing header - on a method
+    // that takes no body (all that a followed redirect leaves) and without the escape hatch that is a body on a
+    // method that takes none, whatever was suppressed on the way
+    let caller_framing = take(3);
     let mut cfg = ReqCfg::new(method, "http://a.test/start");
     cfg.despite = despite;
     cfg.orig.push(("cookie".into(), b"c=1".to_vec()));
@@ -307,11 +311,28 @@ fn after_redirect_cell(idx: u64, rec: &mut Rec) {
         }
         rec.cov("after-redirect/own-host-on-the-new-authority");
     }
+    if caller_framing != 0 {
+        let (n, v) = if caller_framing == 1 { ("transfer-encoding", "chunked") } else { ("content-length", "4") };
+        if let Err(e) = flow.header(n, v) {
+            return rec.fail("C17/setup", format!("{:?}", e));
+        }
+    }
     let mut s = flow.proceed();
     let mut buf = vec![0u8; 4096];
     rec.call();
     let r1 = s.write(&mut buf);
-    rec.ev(|| format!("{} (despite={}) framing={} -> {} x{} -> {} request: first write {:?}", method, despite, framing, status, hops, eff.method, r1));
+    rec.ev(|| format!("{} (despite={}) framing={} -> {} x{} -> {} request, caller adds framing {}: first write {:?}", method, despite, framing, status, hops, eff.method, caller_framing, r1));
+    if caller_framing != 0 && !needs_body(eff.method) {
+        rec.cov(&format!("after-redirect/caller-framing-on-bodyless/{}", if caller_framing == 1 { "chunked" } else { "length" }));
+        let r2 = s.write(&mut buf);
+        return match (r1, r2) {
+            (Err(_), Err(_)) if !s.can_proceed() => {}
+            (a, b) => rec.fail(
+                "C17/invalid-request-written/body-on-bodyless-method",
+                format!("a {} request created by a redirect, to which the caller added {}: writes -> {:?}, {:?}, ready {}", eff.method, if caller_framing == 1 { "transfer-encoding: chunked" } else { "content-length: 4" }, a, b, s.can_proceed()),
+            ),
+        };
+    }
     if let Ok(n) = &r1 {
         let hosts = buf[..*n].split(|b| *b == b'\n').filter(|l| l.len() >= 5 && l[..5].eq_ignore_ascii_case(b"host:")).count();
         if hosts != 1 {
@@ -390,7 +411,7 @@ impl Property for P {
         vec![
             Workload::new("table", 5 * 9 * 5 * 10 * 6 * 2 * 3, true, "the full product (cells with despite on a Call API are skipped)"),
             Workload::new("no-header-requests", 80, true, "body-less methods x origin-form / asterisk targets x 1.0/1.1 x both APIs, no header at all"),
-            Workload::new("after-redirect", 7 * 5 * 3 * 2 * 2, true, "requests created by following 1..2 redirects from requests that carried framing headers: all valid, all must be accepted"),
+            Workload::new("after-redirect", 7 * 5 * 3 * 2 * 2 * 3, true, "requests created by following 1..2 redirects from requests that carried framing headers: all valid, all must be accepted"),
         ]
     }
     fn run_case(&self, wl: &str, idx: u64, _seed: u64, rec: &mut Rec) {
